@@ -650,20 +650,22 @@ impl TypedStmt {
                     .ty
                     .unwrap_array_size(prg, circuit.const_sizes())
                     .expect("Found a non-array value in an array access expr");
-                env.push();
                 let array = array.compile(prg, env, circuit);
 
                 let mut i = 0;
                 while i < array.len() {
+                    // every iteration has its own scope: a binding made in the body (or by the
+                    // loop pattern) must not be visible in the next iteration
+                    env.push();
                     let binding = &array[i..i + elem_in_bits];
                     pattern.compile(binding, prg, env, circuit);
 
                     for stmt in body {
                         stmt.compile(prg, env, circuit);
                     }
+                    env.pop();
                     i += elem_in_bits;
                 }
-                env.pop();
                 vec![]
             }
             StmtEnum::JoinLoop(pattern, join_ty, (a, b), body) => {
